@@ -24,13 +24,10 @@ ASSUMPTIONS = [
     'these diagonal patterns is c*T',
 ]
 OPEN_STATEMENTS = [
-    'jw_exact / jw_majorana_exact / jw_one_body_sound are proved under the decidable hypothesis "exact regime" '
+    'jw_exact / jw_majorana_exact / jw_one_body_sound / jw_two_body_sound are proved under the decidable hypothesis "exact regime" '
     '(no non-zero value deleted by the |v| < EQ_TOLERANCE test of +=); without it the statements are false by '
     'design of the library; the hypothesis is evaluated by the Model on every generated input and counted in the '
     'distribution (theorem-hypothesis exact-regime)',
-    'jw_two_body_sound (jordan_wigner_two_body denotes c a+_p a+_q a_r a_s + h.c. for all p,q,r,s): NOT proved; '
-    'covered by exact correspondence + Spec oracle on every index tuple below the enumeration bound (all coincidence '
-    'patterns and orders; the pattern histogram is in the evidence) and random tuples with indices < 10',
     'jw_interaction_op_sound, jw_dch_sound (the symmetrised-coefficient loops equal jw of the tensor formula): NOT '
     'proved; correspondence + Spec oracle against the tensor formula + exact comparison with the FermionOperator path',
     'reverse_jw_left_inverse (normal_ordered(reverse_jw(jw A)) = normal_ordered A): NOT proved; correspondence of the '
